@@ -24,7 +24,9 @@ def construct_shape(k, n):
   return (k + 1, k + 2, 4 * n, 2 * n)
 
 
-HAND_PICKED = ((4, 5, 13, 7), (6, 7, 12, 8), (5, 5, 11, 6), (3, 5, 8, 5))
+# the last two are trapezoidal truncations with L >= M+3 (coefficients M < l < L-1 exist: the l -> l+1 coupling beyond the
+# triangular part is observable below the top total wavenumber)
+HAND_PICKED = ((4, 5, 13, 7), (6, 7, 12, 8), (5, 5, 11, 6), (3, 5, 8, 5), (3, 6, 10, 6), (2, 7, 9, 7))
 
 
 def grid_shapes(max_m, construct_max=6):
